@@ -432,7 +432,12 @@ func (x *Exec) applyContract(st *State, in ssa.Instruction, fc *FuncContract, si
 	env := &Env{x: x, st: st, old: st, names: names, pkg: pkg, pkgPath: fc.PkgPath}
 	for _, r := range fc.Requires {
 		g := x.evalBool(env, r)
-		x.emit(st, fmt.Sprintf("pre:%s.%s@%d", calleeName, r.Label, ord), "pre", r.Src, g)
+		if r.ObjInv && x.fn.Pkg != nil && x.fn.Pkg.Pkg.Path() != fc.PkgPath {
+			// object invariant of another package's type: holds whenever control is outside that package
+			x.assumedObjInv[calleeName+"."+r.Label] = true
+		} else {
+			x.emit(st, fmt.Sprintf("pre:%s.%s@%d", calleeName, r.Label, ord), "pre", r.Src, g)
+		}
 		st.assume(g)
 	}
 	pre := st.snapshotView()
@@ -562,7 +567,7 @@ func bindResults(names map[string]*Value, sig *types.Signature, res []*Value) {
 
 // snapshotView copies what old() needs.
 func (st *State) snapshotView() *State {
-	n := &State{epoch: st.epoch, allocT: st.allocT, locks: st.locks}
+	n := &State{epoch: st.epoch, epochChain: st.epochChain, allocT: st.allocT, locks: st.locks}
 	n.heap = make(map[string]string, len(st.heap))
 	for k, v := range st.heap {
 		n.heap[k] = v
